@@ -216,6 +216,11 @@ func (p *TrackPool) Release(f *tchannel.Frame) {
 	}
 	if r.state == 2 {
 		p.w.violate("C12", "double-release", "node %s handed the same frame back twice\nfirst release:\n%s\nsecond release:\n%s", p.node, stackString(r.relPCs), stackString(callers()))
+		if p.Reuse {
+			// like a real free list: the frame is now in it twice and will be handed to two users
+			simrt.HBRelease(&p.hb)
+			p.free = append(p.free, f)
+		}
 		return
 	}
 	r.state = 2
